@@ -78,6 +78,10 @@ func ScaleStreams(md protoreflect.MessageDescriptor) []ScaleStream {
 			run = append(run, scalar(fd, i)...)
 		}
 		out = append(out, ScaleStream{"packed run of 70000 " + fd.Kind().String(), protowire.AppendBytes(protowire.AppendTag(nil, fd.Number(), protowire.BytesType), run)})
+		// a short run first: the long run then lands in a list that already holds elements
+		short := append(append(scalar(fd, 70001), scalar(fd, 70002)...), scalar(fd, 70003)...)
+		out = append(out, ScaleStream{"short run, then a packed run of 70000 " + fd.Kind().String(),
+			protowire.AppendBytes(protowire.AppendTag(protowire.AppendBytes(protowire.AppendTag(nil, fd.Number(), protowire.BytesType), short), fd.Number(), protowire.BytesType), run)})
 		// the same list unpacked, interleaved with short packed runs
 		var b []byte
 		for i := 0; i < 20000; i++ {
@@ -150,32 +154,58 @@ func ScaleStreams(md protoreflect.MessageDescriptor) []ScaleStream {
 	}
 	// every non-oneof field populated at once (and the first member of each oneof)
 	if fds.Len() > 16 {
-		var b []byte
-		seenOneof := map[protoreflect.Name]bool{}
-		for i := 0; i < fds.Len(); i++ {
-			fd := fds.Get(i)
-			if od := fd.ContainingOneof(); od != nil {
-				if seenOneof[od.Name()] {
-					continue
-				}
-				seenOneof[od.Name()] = true
-			}
-			switch {
-			case fd.IsMap():
-				e := append(protowire.AppendTag(nil, 1, wt(fd.MapKey())), scalar(fd.MapKey(), 1)...)
-				if fd.MapValue().Message() != nil {
-					e = protowire.AppendBytes(protowire.AppendTag(e, 2, protowire.BytesType), nil)
-				} else {
-					e = append(protowire.AppendTag(e, 2, wt(fd.MapValue())), scalar(fd.MapValue(), 1)...)
-				}
-				b = protowire.AppendBytes(protowire.AppendTag(b, fd.Number(), protowire.BytesType), e)
-			case fd.Message() != nil:
-				b = protowire.AppendBytes(protowire.AppendTag(b, fd.Number(), protowire.BytesType), nil)
-			default:
-				b = append(protowire.AppendTag(b, fd.Number(), wt(fd)), scalar(fd, i+1)...)
-			}
-		}
-		out = append(out, ScaleStream{fmt.Sprintf("all %d fields populated", fds.Len()), b})
+		out = append(out, ScaleStream{fmt.Sprintf("all %d fields populated", fds.Len()), AllFieldsStream(md)})
 	}
 	return out
+}
+
+// AllFieldsStream is a well-typed encoding with every non-oneof field of md (and
+// the first member of each oneof) populated with a non-default value; message
+// fields and map message values are present but empty.
+func AllFieldsStream(md protoreflect.MessageDescriptor) []byte {
+	fds := md.Fields()
+	val := func(fd protoreflect.FieldDescriptor, i int) ([]byte, protowire.Type) {
+		switch fd.Kind() {
+		case protoreflect.BoolKind:
+			return protowire.AppendVarint(nil, 1), protowire.VarintType
+		case protoreflect.EnumKind:
+			vals := fd.Enum().Values()
+			return protowire.AppendVarint(nil, uint64(int64(vals.Get(vals.Len()-1).Number()))), protowire.VarintType
+		case protoreflect.Sint32Kind, protoreflect.Sint64Kind:
+			return protowire.AppendVarint(nil, protowire.EncodeZigZag(int64(-i-1))), protowire.VarintType
+		case protoreflect.Fixed32Kind, protoreflect.Sfixed32Kind, protoreflect.FloatKind:
+			return protowire.AppendFixed32(nil, 0x3fc00000+uint32(i)), protowire.Fixed32Type
+		case protoreflect.Fixed64Kind, protoreflect.Sfixed64Kind, protoreflect.DoubleKind:
+			return protowire.AppendFixed64(nil, 0x3ff8000000000000+uint64(i)), protowire.Fixed64Type
+		case protoreflect.StringKind:
+			return protowire.AppendString(nil, fmt.Sprint("v", i)), protowire.BytesType
+		case protoreflect.BytesKind:
+			return protowire.AppendBytes(nil, []byte{byte(i + 1)}), protowire.BytesType
+		case protoreflect.MessageKind, protoreflect.GroupKind:
+			return protowire.AppendBytes(nil, nil), protowire.BytesType
+		}
+		return protowire.AppendVarint(nil, uint64(i+1)), protowire.VarintType
+	}
+	var b []byte
+	seenOneof := map[protoreflect.Name]bool{}
+	for i := 0; i < fds.Len(); i++ {
+		fd := fds.Get(i)
+		if od := fd.ContainingOneof(); od != nil {
+			if seenOneof[od.Name()] {
+				continue
+			}
+			seenOneof[od.Name()] = true
+		}
+		if fd.IsMap() {
+			kv, kt := val(fd.MapKey(), i)
+			vv, vt := val(fd.MapValue(), i)
+			e := append(protowire.AppendTag(nil, 1, kt), kv...)
+			e = append(protowire.AppendTag(e, 2, vt), vv...)
+			b = protowire.AppendBytes(protowire.AppendTag(b, fd.Number(), protowire.BytesType), e)
+			continue
+		}
+		v, t := val(fd, i)
+		b = append(protowire.AppendTag(b, fd.Number(), t), v...)
+	}
+	return b
 }
